@@ -89,7 +89,7 @@ RULES = [
     (r"^LQ\.Factorize\|receiver-used-for-another-size\|panic:mat: dimension mismatch$", "lq-factorize-reuse-panics"),
     (r"^GSVD\.Factorize\|kind=partial\|panic:lapack: bad GSVDJob[UVQ]$", "gsvd-partial-kind-zero-job"),
     (r"^GSVD\.QTo\|common-zero-column\|orthogonality$", "dggsvp3-dorm2r-for-dormr2"),
-    (r"^GSVD\.(Factorize|Rank)\|common-zero-column\|(gsvd-reconstruction|wrong-rank)$", "dggsvp3-jpvt-zero-marks-columns-fixed"),
+    (r"^GSVD\.(Factorize|Rank)\|common-zero-column\|(gsvd-reconstruction|wrong-rank)$", "dggsvp3-jpvt-zero-marks-columns-fixed"),  # both clauses fire at every seed (pinned cases)
     (r"^LU\.Det\|no-factorization\|must-panic:no-panic$", "lu-det-without-factorization"),
 ]
 
